@@ -62,9 +62,11 @@ type SliceV struct {
 }
 
 type StrV struct {
-	Len  *Term // BV64
-	Data *Term // Array BV64 BV8
-	Max  int   // concrete upper bound of Len
+	Len   *Term // BV64
+	Data  *Term // Array BV64 BV8
+	Max   int   // concrete upper bound of Len
+	Lit   string
+	IsLit bool // the string is the constant Lit
 }
 
 type MapEntry struct {
@@ -546,6 +548,9 @@ func unsupported(msg string) unsupportedErr { return unsupportedErr{msg} }
 
 // concrete string helper
 func (s *StrV) concrete() (string, bool) {
+	if s.IsLit {
+		return s.Lit, true
+	}
 	if !s.Len.IsConst() {
 		return "", false
 	}
@@ -566,5 +571,5 @@ func strConst(s string) *StrV {
 	for i := 0; i < len(s); i++ {
 		d = Store(d, c64(int64(i)), Const(8, uint64(s[i])))
 	}
-	return &StrV{Len: c64(int64(len(s))), Data: d, Max: len(s)}
+	return &StrV{Len: c64(int64(len(s))), Data: d, Max: len(s), Lit: s, IsLit: true}
 }
